@@ -1,7 +1,10 @@
 """C14 — the formatter never changes a program, loses no comment, and is idempotent (level: partial).
 
-prove:      Props/C14.lean — theorems about the layout engine model (Model/Pretty.lean) + token-level newline rule.
-correspond: (1) model vs the real `pretty` crate on random documents x widths, compared byte for byte;
+prove:      Props/C14.lean — theorems about the layout engine model (Model/Pretty.lean), the token-level newline rule, and the
+            ported printer (Model/CstPrint.lean: content of the document = tokens + comments of the tree on the class keepsAll).
+correspond: (0) the ported formatter (Lean: tokenizer + preparse + grammar + printer + layout engine) vs the real pretty_print_cst:
+                rendered text equal at every (width, indent) on every text the harness formats (FNV-1a of the whole output);
+            (1) model vs the real `pretty` crate on random documents x widths, compared byte for byte;
             (2) the three clauses of the statement on the REAL formatter with the REAL parser as oracle:
                 corpus files, layout/comment mutations of them, generated programs; 8 widths x 2 indent sizes.
 decide:     failures inside the open class-shaped findings of known_findings.jsonl -> KNOWN-FINDING; anything else -> VIOLATION.
@@ -102,7 +105,8 @@ def run_port(rows, stream):
                 st["keeps"] += 1
             elif len(st["not_keeps"]) < 20:
                 src = bytes.fromhex(r["hex"]).decode("utf-8", "replace") if r["hex"] != "-" else ""
-                st["not_keeps"].append({"id": r["id"], "src": src, "detail": f[4] if len(f) > 4 else ""})
+                st["not_keeps"].append({"id": r["id"], "src": src[:300], "first_node_outside_class": f[4] if len(f) > 4 else "",
+                                        "content_equals_expected": (f[5] == "1") if len(f) > 5 else None})
     return rest, st, problems
 
 
@@ -120,10 +124,17 @@ def attribute(row, known_by_class):
             # per lost comment: its position key `<preceding token kind>@<owning CST node>` must be one of the positions
             # that lose comments on the pinned tree; a comment lost anywhere else is a new failure
             k = known_by_class.get("comment-at-dropping-delimiter")
+            # a class with `lost_positions`: the text is in the class (predicate on the input CST) and every lost comment sits at
+            # one of the positions the class drops
+            pos_classes = [known_by_class[c] for c in classes if c in known_by_class and "lost_positions" in known_by_class[c]]
             for f in fl:
                 keys = [c.split(">")[0] for c in f.get("lost_pos", ["?"])]
+                allowed = set(p for pc in pos_classes for p in pc["lost_positions"])
                 if k and keys and all(c in k["positions"] for c in keys):
                     known[k["id"]] += 1
+                elif pos_classes and keys and all(c in allowed for c in keys):
+                    for pc in pos_classes:
+                        known[pc["id"]] += 1
                 else:
                     f = dict(f, new_positions=sorted(set(c for c in keys if not k or c not in k["positions"])))
                     new.append(f)
@@ -146,7 +157,8 @@ def attribute(row, known_by_class):
 
 def main(ctx, args):
     ctx.assumptions += [
-        "the formatter's per-construct code (cst_print.rs, 2.4 kLoC) is NOT modelled: the three clauses are decided by running it, with the real parser as oracle",
+        "Model/CstPrint.lean is a literal port of every function of mimium-fmt/src/cst_print.rs (bodies pinned by hash, tools/cst_print.json; dispatch table re-extracted); tie = the text rendered by the Lean pipeline (ported tokenizer, preparse, grammar, printer, layout engine) equals the real pretty_print_cst output at every (width, indent) the harness uses, on every text of this run; display widths of non-ASCII tokens are taken from the crate",
+        "the three clauses (same AST, comments, fixed point) are still DECIDED by running the real formatter with the real parser as oracle; the theorems cover the content clause on the class keepsAll, evaluated by the driver on every parsed text",
         "Model/NewlineRule.lean is a hand port of the expression core of cst_parser.rs on token classes (atoms, infix/prefix operators, calls, field access, indexing, parens, tuples, arrays); tie = green-tree shapes compared on random token sequences with random line breaks in this run (error cases: only the error flag is compared)",
         "Model/Pretty.lean is a hand port of pretty-0.12.4 render.rs (best/fitting) restricted to Nil/Append/Group/FlatAlt/Nest/Hardline/text; tie = byte-exact comparison on random documents in this run",
         "usize arithmetic of the crate modelled on Nat (no overflow/saturation at 2^64)",
@@ -371,6 +383,9 @@ def main(ctx, args):
             ctx.notes.append("positions listed in F14 where some comment was KEPT this run (class may be narrowed): " + ", ".join(kept))
         if unseen:
             ctx.notes.append("positions listed in F14 not exercised this run: " + ", ".join(unseen))
+    if port_not_keeps and not args.replay:
+        ctx.notes.append("texts outside the class keepsAll (the model predicts dropped content; all must belong to a known finding class): " +
+                         ", ".join(sorted(set(d["id"] for d in port_not_keeps))[:12]))
     for k in known:
         n = known_hits.get(k["id"], 0)
         if n or args.replay is None:
@@ -378,7 +393,7 @@ def main(ctx, args):
     ctx.coverage.update({
         "evaluations": stats["evaluations"] + doc_cases + nl_cases + port_stats["evals"],
         "distinct_nontrivial": len(nontrivial) + len(doc_nontriv) + len(nl_nontriv),
-        "rule": "program cases: one evaluation = one (source text, width, indent) with all four checks (parse, AST, comments, fixed point); gap-insertion variants (one comment in one token gap of a class-free text, 4 kinds) count as texts with 4 configurations each; "
+        "rule": "printer-port cases: one evaluation = one (source text, width, indent) formatted by the real formatter and by the Lean port, outputs compared exactly; program cases: one evaluation = one (source text, width, indent) with all four checks (parse, AST, comments, fixed point); gap-insertion variants (one comment in one token gap of a class-free text, 4 kinds) count as texts with 4 configurations each; "
                 "non-trivial = the text was formatted to at least two different outputs across the 16 configurations (layout really depends on width/indent), distinct by id; "
                 "parser cases: one evaluation = one (token-class sequence, line-break placement) parsed by the real parser and the newline-rule model, non-trivial = error-free with at least one line break, distinct by (classes, breaks); "
                 "document cases: one evaluation = one (document, width) rendered by the real crate and the model; non-trivial = output contains a line break, distinct by (width, tree)",
